@@ -4,8 +4,11 @@ import (
 	"fmt"
 	"net/http/httptest"
 	"net/url"
+	"sort"
 	"strings"
 	"time"
+
+	"perkeep.org/pkg/blob"
 
 	"verifharness/hk"
 )
@@ -17,7 +20,7 @@ import (
 // write lock in a loop.  Reports whether the calls got stuck.
 func probeNestedRLock() (bool, string) {
 	w := newIxWorld()
-	pool := genIxPool(hk.NewRand(5), "probe")
+	pool := genIxPool(hk.NewRand(5), "probe", false)
 	for i := range pool {
 		w.exec(pool, opIn{Kind: "irecv", K: i})
 	}
@@ -58,5 +61,131 @@ func probeNestedRLock() (bool, string) {
 	case <-time.After(6 * time.Second):
 		// the goroutines are stuck for good; they are abandoned with their index
 		return true, "serveClaims did not return within 6 s while a writer was waiting for Index.Lock: reader holds RLock and waits for a second RLock behind the queued writer"
+	}
+}
+
+// ---- deterministic witnesses of the known linearizability anomalies ---------------------------------------
+
+type witnessRes struct {
+	h     *history
+	class []string // classes needed to explain the history ([] = linearizable)
+	err   string
+}
+
+// witness runs `setup` sequentially, then starts `first` in its own goroutine with a gate armed at the
+// nth arrival at `point`, runs `during` to completion while `first` is stopped there, releases it, and
+// finally runs `after`.
+func witness(kind string, max int, pool []poolBlob, point string, nth int, setup []opIn, first opIn, during, after []opIn) witnessRes {
+	s, err := buildStore(kind, max)
+	if err != nil {
+		return witnessRes{err: err.Error()}
+	}
+	defer s.Close()
+	refs := make([]blob.Ref, len(pool))
+	for i, b := range pool {
+		refs[i] = blob.MustParse(b.Ref)
+	}
+	h := &history{Kind: kind, Cfg: s.cfg + " (gated witness)", Pool: pool, Clients: 2}
+	do := func(c int, in opIn) {
+		t0 := stamp()
+		out := execStoreOp(s.sto, pool, refs, in)
+		h.Recs = append(h.Recs, rec{Client: c, In: in, Call: t0, Ret: stamp(), Out: out})
+	}
+	for _, in := range setup {
+		do(1, in)
+	}
+	g := armGate(point, nth)
+	t0 := stamp()
+	done := make(chan string, 1)
+	go func() { done <- execStoreOp(s.sto, pool, refs, first) }()
+	if !g.waitReached() {
+		g.open()
+		return witnessRes{err: "the gated call never reached " + point}
+	}
+	for _, in := range during {
+		do(1, in)
+	}
+	g.open()
+	var out string
+	select {
+	case out = <-done:
+	case <-time.After(hangAfter):
+		out = "hang"
+	}
+	h.Recs = append(h.Recs, rec{Client: 0, In: first, Call: t0, Ret: stamp(), Out: out})
+	for _, in := range after {
+		do(1, in)
+	}
+	sort.Slice(h.Recs, func(i, j int) bool { return h.Recs[i].Call < h.Recs[j].Call })
+	w := newWorld(pool)
+	v := w.check(h.Recs, h.Kind, 8*time.Second)
+	return witnessRes{h: h, class: v.classes}
+}
+
+func sortedPool(r *hk.Rand, n int) []poolBlob {
+	p := genPool(r, n)
+	for i := range p { // no all-zero blobs here: zeroed data must be distinguishable
+		for len(p[i].Val) < 4 || p[i].Val[0] == 0 {
+			p[i].Val = append([]byte{1 + byte(i)}, r.Bytes(6)...)
+		}
+		p[i].Ref = blob.RefFromBytes(p[i].Val).String()
+	}
+	sort.Slice(p, func(i, j int) bool { return p[i].Ref < p[j].Ref })
+	return p
+}
+
+// knownWitnesses re-executes, under a forced schedule, the witness of every known anomaly.
+func knownWitnesses(r *hk.Run) {
+	type wdef struct {
+		id, class string
+		run       func() witnessRes
+	}
+	rr := hk.NewRand(r.Res.Seed + 4242)
+	p3 := sortedPool(rr, 3)
+	defs := []wdef{
+		{"F-C14-5", clsRecvErr, func() witnessRes {
+			// files.ReceiveBlob: … Rename, then Lstat of the final name; a RemoveBlobs between the two
+			return witness("files", 0, p3, "vfs.Lstat", 2, nil, opIn{Kind: "recv", K: 0},
+				[]opIn{{Kind: "rm", K: 0}}, []opIn{{Kind: "stat", K: 0}})
+		}},
+		{"F-C14-6", clsFetchZeroed, func() witnessRes {
+			// diskpacked.RemoveBlobs: delete() zeroes the data, then CommitBatch drops the index row; a
+			// Fetch between the two finds the row and reads zeros
+			return witness("diskpacked", 1000, p3, "kv.CommitBatch", 1, []opIn{{Kind: "recv", K: 0}}, opIn{Kind: "rm", K: 0},
+				[]opIn{{Kind: "fetch", K: 0}}, []opIn{{Kind: "fetch", K: 0}})
+		}},
+		{"F-C14-7", clsEnumScan, func() witnessRes {
+			// diskpacked.EnumerateBlobs walks a live index iterator: stopped after the middle blob, it
+			// misses a blob received (and acknowledged) before a later-received blob that it does list
+			return witness("diskpacked", 1000, p3, "kv.Next", 2, []opIn{{Kind: "recv", K: 1}}, opIn{Kind: "enum", After: "", Limit: 1000},
+				[]opIn{{Kind: "recv", K: 0}, {Kind: "recv", K: 2}}, nil)
+		}},
+		{"F-C14-8", clsStaleCache, func() witnessRes {
+			// proxycache.ReceiveBlob: origin first, then the cache; a RemoveBlobs (cache, then origin)
+			// between the two leaves the removed blob in the cache for good
+			return witness("proxy", 1 << 20, p3, "sto.ReceiveBlob", 2, nil, opIn{Kind: "recv", K: 0},
+				[]opIn{{Kind: "rm", K: 0}}, []opIn{{Kind: "stat", K: 0}, {Kind: "fetch", K: 0}, {Kind: "enum", After: "", Limit: 1000}})
+		}},
+	}
+	for _, d := range defs {
+		res := d.run()
+		r.ImplOnly("gated-witness")
+		if res.err != "" {
+			r.Probe(d.id, false, "witness could not be run: "+res.err)
+			r.Fail("harness:witness-failed:"+d.id, res.err, "", "", nil)
+			continue
+		}
+		w := newWorld(res.h.Pool)
+		rep := len(res.class) == 1 && res.class[0] == d.class
+		r.Probe(d.id, rep, fmt.Sprintf("gated schedule: classes=%v; %s", res.class, histText(res.h, w, 12)))
+		switch {
+		case rep:
+			r.Hit("witness:" + d.class)
+			r.Fail(sigOf(d.class), "forced schedule: "+histText(res.h, w, 12), "linearizable", "not linearizable ("+d.class+")", nil)
+		case len(res.class) == 0:
+			r.Hit("witness-no-longer-reproduces:" + d.class)
+		default:
+			r.Fail("nonlin:"+res.h.Kind+":witness-of-"+d.id+"-changed", fmt.Sprintf("classes=%v; %s", res.class, histText(res.h, w, 12)), d.class, fmt.Sprint(res.class), nil)
+		}
 	}
 }
